@@ -57,33 +57,39 @@ def check(R, F):
     R.require(ok, 'wrong-zone', lb.gpath + '|walk-from-apex', lb.where(), 'walks from the apex with level = len(name) - len(apex), at_apex = true', 'lookup_base starts the walk with %s' % (cl[0][2] if cl else None))
     # the walk is entered on every other path (unchecked, or inside the zone)
     li = F.fn(Z + 'lookup_impl')
-    rs = returns(li)
-    ref = [r for r in rs if r[1] == 'Referral']
-    ok = len(ref) == 1 and paths.guards_equiv(ref[0][3], ['arg5 in [0]', 'arg4 in [0]', 'discr(RrsetList::lookup(arg1.data.rrsets,Type(2_u16))) in [1]'])
-    R.require(ok, 'referral', li.gpath + '|condition', li.where(ref[0][0]) if ref else li.where(), 'Referral iff !at_apex && !search_below_cuts && NS RRset at this node', 'Referral is returned under %s' % (ref[0][3] if ref else None))
-    if ref:
-        txt = ref[0][2][0]
-        R.require('arg1.name' in txt and 'RrsetList::lookup(arg1.data.rrsets,Type(2_u16))' in txt, 'referral', li.gpath + '|names-this-node', li.where(ref[0][0]), 'child_zone = this node\'s name, ns_rrset = this node\'s NS RRset', 'the referral is built from %s' % txt)
-    lvl = [b for b, bl in enumerate(li.blocks) if bl['term']['k'] == 'switch' and paths.show_operand(li, bl['term']['op']) == 'Eq(arg3,0_usize)']
-    cut = [b for b, bl in enumerate(li.blocks) if bl['term']['k'] == 'switch' and paths.show_operand(li, bl['term']['op']) == 'arg5']
-    ok = len(lvl) == 1 and len(cut) == 1 and li.dominates(cut[0], lvl[0])
-    R.require(ok, 'referral', li.gpath + '|cut-test-before-level-test', li.where(), 'the delegation test precedes the level == 0 test', 'the level == 0 test is reachable without the delegation test')
-    fd = [r for r in rs if r[1] == 'Found']
-    f0 = [r for r in fd if 'Eq(arg3,0_usize) not in [0]' in r[3]]
-    R.require(len(f0) == 1 and f0[0][2] == ['arg1.data', 'Option::None{}'], 'walk', li.gpath + '|level0-own-data', li.where(), 'level 0: this node\'s data, no source of synthesis', 'at level 0 lookup_impl returns %s' % (f0[0][2] if f0 else None))
-    rec = [r for r in rs if r[1].startswith('call') and 'lookup_impl' in r[1]]
-    ok = len(rec) == 1 and rec[0][2][1:] == ['arg2', 'Sub(arg3,1_usize)', 'arg4', 'false'] and rec[0][2][0].startswith('HashMap::get(arg1.children,Name::index(arg2,Sub(arg3,1_usize)))@Some.0') and \
-        'discr(HashMap::get(arg1.children,Name::index(arg2,Sub(arg3,1_usize)))) in [1]' in rec[0][3] and 'Eq(arg3,0_usize) in [0]' in rec[0][3]
-    R.require(ok, 'walk', li.gpath + '|descend', li.where(rec[0][0]) if rec else li.where(), 'descends into children[name[level-1]] with level-1, same search_below_cuts, at_apex = false', 'the recursive step is %s under %s' % (rec[0][2] if rec else None, rec[0][3] if rec else None))
-    fw = [r for r in fd if r not in f0]
-    miss = 'discr(HashMap::get(arg1.children,Name::index(arg2,Sub(arg3,1_usize)))) not in [1]'
-    ok = len(fw) == 1 and miss in fw[0][3] and 'discr(HashMap::get(arg1.children,Label::asterisk())) in [1]' in fw[0][3] and \
-        fw[0][2][0] == 'HashMap::get(arg1.children,Label::asterisk())@Some.0.data' and fw[0][2][1].startswith('Option::Some{') and 'HashMap::get(arg1.children,Label::asterisk())@Some.0.name' in fw[0][2][1]
-    R.require(ok, 'wildcard', li.gpath + '|only-when-child-missing', li.where(fw[0][0]) if fw else li.where(), '`*` child used only when the exact child is missing; data and source of synthesis come from the `*` node', 'the wildcard arm is %s under %s' % (fw[0][2] if fw else None, fw[0][3] if fw else None))
-    nx = [r for r in rs if r[1] == 'NxDomain']
-    ok = len(nx) == 1 and miss in nx[0][3] and 'discr(HashMap::get(arg1.children,Label::asterisk())) not in [1]' in nx[0][3]
-    R.require(ok, 'wildcard', li.gpath + '|nxdomain-when-both-missing', li.where(), 'NxDomain only when neither the child nor `*` exists', 'NxDomain is returned under %s' % (nx[0][3] if nx else None))
-    R.require(len(rs) == 5, 'walk', li.gpath + '|exits', li.where(), 'exactly five outcomes', 'lookup_impl has %d return sites' % len(rs))
+    recursive = any(callee_name(t) == li.gpath for b_, t in li.calls())
+    if not recursive:
+        # the rules below read the walk off the recursive form (state = the parameters, step = the self-call); a walk
+        # rewritten as a loop over mutable locals is a different program shape that they do not decide
+        R.bad('walk', li.gpath + '|form', li.where(), 'lookup_impl does not call itself: the walk is not in the recursive form these rules decide: shape not recognised')
+    else:
+        rs = returns(li)
+        ref = [r for r in rs if r[1] == 'Referral']
+        ok = len(ref) == 1 and paths.guards_equiv(ref[0][3], ['arg5 in [0]', 'arg4 in [0]', 'discr(RrsetList::lookup(arg1.data.rrsets,Type(2_u16))) in [1]'])
+        R.require(ok, 'referral', li.gpath + '|condition', li.where(ref[0][0]) if ref else li.where(), 'Referral iff !at_apex && !search_below_cuts && NS RRset at this node', 'Referral is returned under %s' % (ref[0][3] if ref else None))
+        if ref:
+            txt = ref[0][2][0]
+            R.require('arg1.name' in txt and 'RrsetList::lookup(arg1.data.rrsets,Type(2_u16))' in txt, 'referral', li.gpath + '|names-this-node', li.where(ref[0][0]), 'child_zone = this node\'s name, ns_rrset = this node\'s NS RRset', 'the referral is built from %s' % txt)
+        lvl = [b for b, bl in enumerate(li.blocks) if bl['term']['k'] == 'switch' and paths.show_operand(li, bl['term']['op']) == 'Eq(arg3,0_usize)']
+        cut = [b for b, bl in enumerate(li.blocks) if bl['term']['k'] == 'switch' and paths.show_operand(li, bl['term']['op']) == 'arg5']
+        ok = len(lvl) == 1 and len(cut) == 1 and li.dominates(cut[0], lvl[0])
+        R.require(ok, 'referral', li.gpath + '|cut-test-before-level-test', li.where(), 'the delegation test precedes the level == 0 test', 'the level == 0 test is reachable without the delegation test')
+        fd = [r for r in rs if r[1] == 'Found']
+        f0 = [r for r in fd if 'Eq(arg3,0_usize) not in [0]' in r[3]]
+        R.require(len(f0) == 1 and f0[0][2] == ['arg1.data', 'Option::None{}'], 'walk', li.gpath + '|level0-own-data', li.where(), 'level 0: this node\'s data, no source of synthesis', 'at level 0 lookup_impl returns %s' % (f0[0][2] if f0 else None))
+        rec = [r for r in rs if r[1].startswith('call') and 'lookup_impl' in r[1]]
+        ok = len(rec) == 1 and rec[0][2][1:] == ['arg2', 'Sub(arg3,1_usize)', 'arg4', 'false'] and rec[0][2][0].startswith('HashMap::get(arg1.children,Name::index(arg2,Sub(arg3,1_usize)))@Some.0') and \
+            'discr(HashMap::get(arg1.children,Name::index(arg2,Sub(arg3,1_usize)))) in [1]' in rec[0][3] and 'Eq(arg3,0_usize) in [0]' in rec[0][3]
+        R.require(ok, 'walk', li.gpath + '|descend', li.where(rec[0][0]) if rec else li.where(), 'descends into children[name[level-1]] with level-1, same search_below_cuts, at_apex = false', 'the recursive step is %s under %s' % (rec[0][2] if rec else None, rec[0][3] if rec else None))
+        fw = [r for r in fd if r not in f0]
+        miss = 'discr(HashMap::get(arg1.children,Name::index(arg2,Sub(arg3,1_usize)))) not in [1]'
+        ok = len(fw) == 1 and miss in fw[0][3] and 'discr(HashMap::get(arg1.children,Label::asterisk())) in [1]' in fw[0][3] and \
+            fw[0][2][0] == 'HashMap::get(arg1.children,Label::asterisk())@Some.0.data' and fw[0][2][1].startswith('Option::Some{') and 'HashMap::get(arg1.children,Label::asterisk())@Some.0.name' in fw[0][2][1]
+        R.require(ok, 'wildcard', li.gpath + '|only-when-child-missing', li.where(fw[0][0]) if fw else li.where(), '`*` child used only when the exact child is missing; data and source of synthesis come from the `*` node', 'the wildcard arm is %s under %s' % (fw[0][2] if fw else None, fw[0][3] if fw else None))
+        nx = [r for r in rs if r[1] == 'NxDomain']
+        ok = len(nx) == 1 and miss in nx[0][3] and 'discr(HashMap::get(arg1.children,Label::asterisk())) not in [1]' in nx[0][3]
+        R.require(ok, 'wildcard', li.gpath + '|nxdomain-when-both-missing', li.where(), 'NxDomain only when neither the child nor `*` exists', 'NxDomain is returned under %s' % (nx[0][3] if nx else None))
+        R.require(len(rs) == 5, 'walk', li.gpath + '|exits', li.where(), 'exactly five outcomes', 'lookup_impl has %d return sites' % len(rs))
     # ---- (e)
     bv = enum_variants(F, Z + 'LookupBaseResult')
     for name, enum in (('lookup', 'db::zone::LookupResult'), ('lookup_addrs', 'db::zone::LookupAddrsResult'), ('lookup_all', 'db::zone::LookupAllResult')):
